@@ -38,6 +38,13 @@ CLAIMED = {
             "(valid UTF-8 for 8/16-bit types, ASCII for wider ones; leading '+' excluded as the property states), plus the 1000-string "
             "neighbourhoods of MIN and MAX for the 32/64/128-bit types; Parser::parse_* consumes exactly '-'? + the longest digit run, "
             "returns std's value and the rest (ptr,len,offsets), and on failure reports the start offset and consumes nothing.", "DESIGN.md#c12"),
+    "C13": (BMC + "a one-step inductive invariant from an arbitrary reachable Parser state (window, base offset, split flag, direction), one harness per operation",
+            "For every original string up to the stated length, every window on char boundaries, every base offset <= 2^30, both values of the "
+            "one-shot split flag and every pattern argument, one step of each of the 22 Parser operations preserves: remainder == "
+            "original[start-base..end-base] by address and length, offsets on char boundaries, narrowing only; a failing operation reports "
+            "the start (front ops) or end (back ops) offset of the parser it was called on with the matching direction and kind. The "
+            "constructors satisfy the invariant, so induction covers operation sequences of any length; the bound is on string size only.",
+            "DESIGN.md#c13"),
     "C16": (BMC + "std == / Ord::cmp on symbolic pairs (lexicographic reference for slices), should_panic twins for assertc_eq!/assertc_ne!",
             "Scalars, NonZero*, Ordering, ranges and Option of them are compared with std over their whole domains (exhaustive per pair); "
             "strings, slices of every primitive, slices of strings/byte slices over all contents up to the stated lengths (all length "
